@@ -160,7 +160,8 @@ def _strategy_lin(shapes):
         elif wstruct == "orthonormal_rows":
             W = np.linalg.qr(np.swapaxes(W, 1, 2))[0]
             W = np.swapaxes(W, 1, 2)[:, :K, :]
-        case = {"D": D, "R": R, "N": N, "K": K, "combo": combo, "diag": diag, "W": W, "wstruct": wstruct,
+        w_int = wstruct == "selection" and draw(st.booleans())  # dtype regime: a 0/1 selection matrix written as an integer array
+        case = {"D": D, "R": R, "N": N, "K": K, "combo": combo, "diag": diag, "W": W, "wstruct": wstruct, "w_int": w_int,
                 "b": draw(st.one_of(st.none(), gen.arr((Rw, K)))),
                 "p": draw(gen.measure_params("diag_pdf" if diag else "pdf", Rp, D, draw(st.sampled_from([10.0, 100.0])))),
                 "upd": draw(gen.maybe_update("diag_pdf" if diag else "pdf", Rp, D)),
@@ -184,7 +185,10 @@ def _run_lin(case):
     bJ = None if b is None else J(b)
     b_before = None if b is None else np.asarray(bJ).copy()
     mu_before = np.asarray(p.mu).copy()
-    ok, q = lib(fails, "linear_sum", lambda: p.get_density_of_linear_sum(J(W), bJ))
+    import jax.numpy as jnp
+
+    WJ = jnp.asarray(W.astype(np.int64)) if case.get("w_int") else J(W)
+    ok, q = lib(fails, "linear_sum", lambda: p.get_density_of_linear_sum(WJ, bJ))
     if not ok:
         return fails
     R = max(W.shape[0], mu.shape[0])
@@ -223,7 +227,7 @@ def _nontrivial_lin(case):
 
 
 def _labels_lin(case):
-    return [f"combo={case['combo']}", "b" if case["b"] is not None else "no_b", f"diag={case['diag']}", "K=D" if case["K"] == case["D"] else "K<D", f"W={case.get('wstruct') or 'generic'}", "D>=17" if case["D"] >= 17 else "D<=8", f"far_mean={case.get('far', 0.0):g}"]
+    return [f"combo={case['combo']}", "b" if case["b"] is not None else "no_b", f"diag={case['diag']}", "K=D" if case["K"] == case["D"] else "K<D", f"W={case.get('wstruct') or 'generic'}" + ("(int dtype)" if case.get("w_int") else ""), "D>=17" if case["D"] >= 17 else "D<=8", f"far_mean={case.get('far', 0.0):g}"]
 
 
 SUBS = [
